@@ -14,7 +14,7 @@ ROOT = os.path.dirname(os.path.dirname(os.path.abspath(__file__)))
 T = {
  "C01-m01": ("C01", "a filter whose AND contains an AndNot term next to an indexed term of a particular selectivity; only the indexed plan differs from the full scan",
              "caught", "quick seed 1", "c01 lookup-vs-scan differential signatures", None),
- "C02-q02": ("C02", "the full optimiser (index metadata present) and a group whose only term is a same-kind group of two or more terms, at any nesting level", None, None, None, None),
+ "C02-q02": ("C02", "the full optimiser (index metadata present) and a group whose only term is a same-kind group of two or more terms, at any nesting level", "caught", "quick seed 1", "c02/optimise-changes-match, c02/duplicate-padding-changes-match, c02/optimise-not-idempotent-in-meaning", None),
  "C15-q15": ("C15", "an administrator-defined class with a non-system must attribute (dynamic schema, domain level <= 14), then a create omitting it or a modify purging it", None, None, None, None),
  "C20-q20": ("C20", "an access profile granting present+removed on uuid and a modlist mixing the uuid writes with a change of another attribute that also changes the entry's unique attributes", None, None, None, None),
  "C31-q31": ("C31", "a badlist entry with a non-ASCII cased letter, submitted with that letter in upper case, strong enough to reach the badlist step, through a credential update session", None, None, None, None),
@@ -80,7 +80,8 @@ T = {
  "C47-p47": ("C47", "a supervisor tree of depth >= 2, parent stop already consumed by the subordinate, an actor below still busy, and an explicit stop() on the subordinate in that window",
              "caught", "quick seed 1", "c47/stop-returned-before-cleanup-done", None),
  "C49-q49": ("C49", "the anonymous account: a token issued while it was valid, then account_expire / valid_from set on anonymous, then the old token presented outside the window",
-             None, None, None, None),
+             "caught", "quick seed 1", "c49/issued-token-accepted-outside-validity/asker=anonymous",
+             "missed at first (the builtin anonymous account never got a validity window); added anonymous_case: token issued, window written on anonymous, token and new anonymous logins probed on both sides of every edge, window reopened afterwards"),
  "C50-p50": ("C50", "a sync request from agreement B naming, without externalId, a live sync object owned by agreement A, together with another entry that has an externalId", "caught", "quick seed 1", "c50/sync-changed-other-agreement-entry", None),
 }
 
